@@ -50,3 +50,5 @@ pub assume_specification [i128::is_negative] (x: i128) -> (r: bool) ensures r ==
 pub assume_specification [i64::abs] (x: i64) -> (r: i64)
     requires x != i64::MIN,
     ensures r == (if x < 0 { -x } else { x as int });
+pub assume_specification [i64::unsigned_abs] (x: i64) -> (r: u64)
+    ensures r as int == (if x < 0 { -(x as int) } else { x as int });
